@@ -320,7 +320,26 @@ def c18(prog, rep):
                         'integer widths/overflow behaviour of the C types are as the published algorithms assume (uint32_t/uint64_t)']
 
 
+def c20(prog, rep):
+    from . import configrules as CR
+    CR.rule_c20(prog, rep)
+    rep.floor('B1', 9)
+    rep.floor('B2', 2)
+    rep.floor('B3', 10)
+    rep.floor('B4', 3)
+    rep.explanation = (
+        'Narrow structural clauses of the Apache-style parser (qaconf.c): B1 the literal set the boolean classifier compares against '
+        '(case-insensitively) contains all eight documented spellings and maps the two polarities and "not a boolean" to three '
+        'distinct results; B2 the boolean branch of the type check accepts exactly the two boolean outcomes and can write both "1" '
+        'and "0"; B3 every assignment that makes the parser fail comes from an expansion that records a message with file path and '
+        'line number, or propagates a nested failure; B4 the parser returns `failed ? -1 : count`, the count is incremented at one '
+        'site reached by every loop iteration that created a directive record, and nested counts are added. Not decided: the '
+        'callback stream / INI entry list as a function of the document (tokeniser, quoting, scopes, ${} expansion).')
+    rep.assumptions += ['the callback stream, argument splitting/unescaping, section scopes and the INI-style parser are not decided']
+
+
 PROPS = {
+    'C20': dict(fn=c20, level='other'),
     'C18': dict(fn=c18, level='other'),
     'C10': dict(fn=c10, level='other'),
     'C05': dict(fn=c05, level='other'),
